@@ -18,6 +18,7 @@ import (
 	"os"
 	"path/filepath"
 	"regexp"
+	"sort"
 	"strings"
 
 	"github.com/DavidGamba/go-getoptions/internal/help"
@@ -368,8 +369,8 @@ func (gopt *GetOpt) Parse(args []string) ([]string, error) {
 		// If the help is called, don't check for required options since the program wont run.
 		if gopt.finalNode.HelpCommandName == "" || !gopt.Called(gopt.finalNode.HelpCommandName) {
 			// Validate required options
-			for _, option := range node.ChildOptions {
-				err := option.CheckRequired()
+			for _, name := range sortedOptionKeys(node.ChildOptions) {
+				err := node.ChildOptions[name].CheckRequired()
 				if err != nil {
 					return nil, fmt.Errorf("%w%s", ErrorParsing, err.Error())
 				}
@@ -390,6 +391,17 @@ func (gopt *GetOpt) Parse(args []string) ([]string, error) {
 	return node.ChildText, nil
 }
 
+// sortedOptionKeys - names and aliases of the option table in a fixed order,
+// so that the missing required option reported is always the same one.
+func sortedOptionKeys(m map[string]*option.Option) []string {
+	keys := make([]string, 0, len(m))
+	for k := range m {
+		keys = append(keys, k)
+	}
+	sort.Strings(keys)
+	return keys
+}
+
 // Dispatch - Handles calling commands and subcommands after the call to Parse.
 func (gopt *GetOpt) Dispatch(ctx context.Context, remaining []string) error {
 	if gopt.finalNode.HelpCommandName != "" && gopt.Called(gopt.finalNode.HelpCommandName) {
@@ -397,8 +409,8 @@ func (gopt *GetOpt) Dispatch(ctx context.Context, remaining []string) error {
 		return ErrorHelpCalled
 	}
 	// Validate required options
-	for _, option := range gopt.finalNode.ChildOptions {
-		err := option.CheckRequired()
+	for _, name := range sortedOptionKeys(gopt.finalNode.ChildOptions) {
+		err := gopt.finalNode.ChildOptions[name].CheckRequired()
 		if err != nil {
 			return fmt.Errorf("%w%s", ErrorParsing, err.Error())
 		}
